@@ -53,11 +53,11 @@ def call (args : List String) : Option String :=
   match args with
   | "up" :: rest =>
     match parseNats rest with
-    | some [k, addr, len, size, burst] => some (showReq (upConv k ⟨addr, len, size, burst, 0⟩))
+    | some [k, addr, len, size, burst] => some (showReq (upAx k ⟨addr, len, size, burst, 0⟩))
     | _ => none
   | "down" :: rest =>
     match parseNats rest with
-    | some [sf, st, addr, len, size, burst] => some (showReq (downConv sf st ⟨addr, len, size, burst, 0⟩))
+    | some [sf, st, addr, len, size, burst] => some (showReq (downAx sf st ⟨addr, len, size, burst, 0⟩))
     | _ => none
   | "spec" :: rest =>
     match parseNats rest with
